@@ -13,7 +13,11 @@ namespace
   long g_cache_lookups = 0;
   long g_cache_drops = 0;
   int g_fail_fd = -1;
+  bool g_scon_fatal = true;
+  int g_scon_notes = 0;
 }
+
+void hooks_set_scon_fatal (bool fatal) { g_scon_fatal = fatal; }
 
 void hooks_set_poison (int byte) { g_poison = byte; }
 
@@ -51,9 +55,20 @@ dwgrep_verif_unusual (char const *site)
 extern "C" void
 dwgrep_verif_fail (char const *msg)
 {
+  if (g_fail_fd >= 0 && ! g_scon_fatal)
+    {
+      // Record and carry on, as a build without the hook would.
+      if (g_scon_notes++ < 20)
+	{
+	  std::string line = "note scon " + hexenc (msg) + "\n";
+	  ssize_t r = write (g_fail_fd, line.data (), line.size ());
+	  (void) r;
+	}
+      return;
+    }
   if (g_fail_fd >= 0)
     {
-      std::string line = "viol scon " + hexenc (msg) + "\n";
+      std::string line = "\nviol scon " + hexenc (msg) + "\n";
       ssize_t r = write (g_fail_fd, line.data (), line.size ());
       (void) r;
       _exit (79);
